@@ -187,11 +187,11 @@ structure PL (st : σ) (path' : List σ) (eb0 : List Nat) (k : Nat) (acc : List 
   sub : ∀ i ∈ acc.1, i ∈ eb0
   upto : ∀ i ∈ acc.1, i < k → ∀ pr, P.props[i]? = some pr → pr.cond st = false
 
-theorem propStep_pl {st : σ} {path' : List σ} {eb0 : List Nat} {k : Nat}
+theorem propStep_pl {st : σ} {path' : List σ} {eb0 : List Nat} {k : Nat} {o : Nat → Bool}
     {acc : List Nat × Bool × List (Nat × List σ)}
     (hpath : P.M.IsPath path') (hlast : path'.getLast? = some st)
     (hev : ∀ i ∈ eb0, ∀ pr, P.props[i]? = some pr → pr.exp = .eventually)
-    (h : PL (P := P) st path' eb0 k acc) : PL (P := P) st path' eb0 (k + 1) (propStep P.props st path' acc k) := by
+    (h : PL (P := P) st path' eb0 k acc) : PL (P := P) st path' eb0 (k + 1) (propStep P.props st path' o acc k) := by
   unfold propStep
   split
   · exact ⟨h.disc, h.nodup, h.sub, fun i hi hlt pr hpr => by
@@ -250,11 +250,11 @@ theorem propStep_pl {st : σ} {path' : List σ} {eb0 : List Nat} {k : Nat}
           · subst hik; rw [hp] at hpr; cases hpr; simpa using hc
           · exact carry i hi hik hlt pr hpr
 
-theorem propLoop_pl {st : σ} {path' : List σ} {eb0 : List Nat} {d : List (Nat × List σ)}
+theorem propLoop_pl {st : σ} {path' : List σ} {eb0 : List Nat} {d : List (Nat × List σ)} {o : Nat → Bool}
     (hpath : P.M.IsPath path') (hlast : path'.getLast? = some st)
     (hev : ∀ i ∈ eb0, ∀ pr, P.props[i]? = some pr → pr.exp = .eventually)
     (hnd : eb0.Nodup) (hd : DiscOk P d) :
-    PL (P := P) st path' eb0 P.props.length (propLoop P.props st path' eb0 d) := by
+    PL (P := P) st path' eb0 P.props.length (propLoop P.props st path' eb0 d o) := by
   unfold propLoop
   generalize P.props.length = n
   induction n with
@@ -294,10 +294,10 @@ theorem isPath_extend {path : List σ} {st : σ} (h : PathTo (P := P) path st) (
 
 theorem traceLoop_ok
     (hkc : ∀ a b, P.M.Reach a → P.M.Reach b → P.key a = P.key b → ∀ pr ∈ P.props, pr.cond a = pr.cond b)
-    (f : Nat) : ∀ (st : σ) (path : List σ) (gen : List κ) (eb ans : List Nat) (g : G σ),
+    (orc : Nat → Nat → Bool) (f : Nat) : ∀ (st : σ) (path : List σ) (gen : List κ) (eb ans : List Nat) (g : G σ),
     DiscOk P g.disc → PathTo (P := P) path st → (∀ k, k ∈ gen ↔ ∃ t ∈ path, P.key t = k) → eb.Nodup →
     (∀ i ∈ eb, ∀ pr, P.props[i]? = some pr → pr.exp = .eventually ∧ Avoids pr path) →
-    DiscOk P (traceLoop P f st path gen eb ans g).1.disc := by
+    DiscOk P (traceLoop P orc f st path gen eb ans g).1.disc := by
   induction f with
   | zero => intro st path gen eb ans g hd _ _ _ _; exact hd
   | succ f ih =>
@@ -335,9 +335,9 @@ theorem traceLoop_ok
             · exact hav u hu
             · simp at hu; subst hu; exact hct
         · rename_i hk
-          have hpl := propLoop_pl (P := P) (d := g.disc) hpath' hlast' (fun i hi pr hpr => (heb i hi pr hpr).1) hnd hd
+          have hpl := propLoop_pl (P := P) (d := g.disc) (o := orc path.length) hpath' hlast' (fun i hi pr hpr => (heb i hi pr hpr).1) hnd hd
           -- after the property loop the remaining bits avoid the whole path
-          have heb' : ∀ i ∈ (propLoop P.props st (path ++ [st]) eb g.disc).1, ∀ pr, P.props[i]? = some pr →
+          have heb' : ∀ i ∈ (propLoop P.props st (path ++ [st]) eb g.disc (orc path.length)).1, ∀ pr, P.props[i]? = some pr →
               pr.exp = .eventually ∧ Avoids pr (path ++ [st]) := by
             intro i hi pr hpr
             have hi0 := hpl.sub i hi
@@ -379,7 +379,8 @@ theorem traceLoop_ok
 
 theorem trace_ok
     (hkc : ∀ a b, P.M.Reach a → P.M.Reach b → P.key a = P.key b → ∀ pr ∈ P.props, pr.cond a = pr.cond b)
-    (fuel : Nat) (ans : List Nat) (g : G σ) (hd : DiscOk P g.disc) : DiscOk P (trace P fuel ans g).1.disc := by
+    (fuel : Nat) (ans : List Nat) (g : G σ) (hd : DiscOk P g.disc) (orc : Nat → Nat → Bool := fun _ _ => false) :
+    DiscOk P (trace P fuel ans g orc).1.disc := by
   unfold trace
   split
   · exact hd
@@ -387,7 +388,7 @@ theorem trace_ok
     split
     · exact hd
     · rename_i s hs
-      refine traceLoop_ok hkc fuel s [] [] _ _ g hd (Or.inl ⟨rfl, List.mem_of_getElem? hs⟩) (by simp)
+      refine traceLoop_ok hkc orc fuel s [] [] _ _ g hd (Or.inl ⟨rfl, List.mem_of_getElem? hs⟩) (by simp)
         (initEbits_nodup _) ?_
       intro i hi pr hpr
       refine ⟨?_, by intro t ht; simp at ht⟩
@@ -408,6 +409,17 @@ theorem runTraces_ok
     · split
       · exact h1
       · exact ih _ _ h1
+
+theorem tracesO_ok
+    (hkc : ∀ a b, P.M.Reach a → P.M.Reach b → P.key a = P.key b → ∀ pr ∈ P.props, pr.cond a = pr.cond b)
+    (orc : Nat → Nat → Nat → Bool) (fuels : List Nat) : ∀ (j : Nat) (ans : List Nat) (g : G σ), DiscOk P g.disc →
+    DiscOk P (tracesO P orc j fuels ans g).disc := by
+  induction fuels with
+  | nil => intro j ans g hd; exact hd
+  | cons f fuels ih =>
+    intro j ans g hd
+    simp only [tracesO]
+    exact ih _ _ _ (trace_ok hkc f ans g hd (orc j))
 
 end
 end SR.Checker.Sim
